@@ -567,7 +567,7 @@ func ruleExpiryRemoves(c *Ctx, rule string) {
 		w.eachInstr(start, func(in ssa.Instruction) {
 			if call, ok := in.(*ssa.Call); ok && call.Call.StaticCallee() == afterFunc {
 				if mc, ok := call.Call.Args[1].(*ssa.MakeClosure); ok {
-					closure = mc.Fn.(*ssa.Function)
+					closure = w.closureBody(mc)
 				}
 			}
 		})
